@@ -342,6 +342,7 @@ type Exec struct {
 	selRoots    []map[string]bool
 	callArgs    []Value // arguments of the call whose call-site assertion is being evaluated
 	fvByName    map[string]Value // captured variables of the closure under proof (pointers to the enclosing cells)
+	strLenAx    map[string]bool // string-array elements whose length axiom was already recorded
 	lazySMT     bool  // obligations emitted now are members of a batch: their own queries are built on demand
 	uses        []int // when non-nil: only these loop invariants are kept as hypotheses of the obligation being built
 }
